@@ -772,6 +772,10 @@ pub trait GarnishData: Sized {
             forall|c: Self::Number| #![auto] call_ensures(<Self::Number as TypeConstants>::one, (), c) ==> c == Self::num_one(),
             forall|c: Self::Number| #![auto] call_ensures(<Self::Number as TypeConstants>::max_value, (), c) ==> c == Self::num_max(),
             Self::nidx(Self::num_zero()) == 0,
+            // a number that compares >= the number made from a size also indexes at or past that size (truncation is monotone)
+            forall|a: Self::Number, s: Self::Size| #![auto] (Self::num_cmp(a, <Self::DataFactory as GarnishDataFactory<Self::Size, Self::Number, Self::Char, Self::Byte, Self::Symbol, Self::Error, Self::SizeIterator, Self::NumberIterator>>::size_to_number_spec(s)) == Some(Ordering::Greater)
+                || Self::num_cmp(a, <Self::DataFactory as GarnishDataFactory<Self::Size, Self::Number, Self::Char, Self::Byte, Self::Symbol, Self::Error, Self::SizeIterator, Self::NumberIterator>>::size_to_number_spec(s)) == Some(Ordering::Equal))
+                ==> Self::nidx(a) >= Self::sv(s),
             Self::nidx(Self::num_one()) == 1,
             forall|s: Self::Size| #![auto] Self::nidx(<Self::DataFactory as GarnishDataFactory<Self::Size, Self::Number, Self::Char, Self::Byte, Self::Symbol, Self::Error, Self::SizeIterator, Self::NumberIterator>>::size_to_number_spec(s)) == Self::sv(s),
     ;
